@@ -558,7 +558,9 @@ func main() {
 		"rule": "configurations and write histories from splitmix64(seed, index): variant x track set (0-1 video: H264 / H265 / VP9 / AV1 on the fMP4 variants, H264 on MPEG-TS plus rejected MPEG-TS configurations with the other three; 0-3 AAC/Opus audio, any order) x SegmentCount x SegmentMinDuration x PartMinDuration x SegmentMaxSize x RAM/disk; " +
 			"30-230 writes (long histories: 1500-3000) with jitter, equal DTS, mid-GOP and negative starts, multi-AU audio, parameter changes (H264/H265 on any unit, VP9/AV1 on key frames / sequence headers), H265 picture reordering (pts - dts of 0-4 frame ticks), " +
 			"H264 picture reordering (two in three H264 histories: real slice headers, pic_order_cnt_type 0 parameter sets with 0-3 B pictures between anchors, POC wrap, frame / field-style POC numbering; the abstract dts is what mediacommon's h264.DTSExtractor returns for the concrete units), " +
-			"AV1 sequence headers with and without an explicit colour description, boundary aiming (one history in three: random-access units of the leading track exactly at / one tick before / one tick after the tick at which SegmentMinDuration is reached, Low-Latency also at the frozen part duration, segment starts on arbitrary ticks), cross-track skew; distinct by SHA-256 of the history; " +
+			"AV1 sequence headers with and without an explicit colour description, boundary aiming (one history in three: random-access units of the leading track exactly at / one tick before / one tick after the tick at which SegmentMinDuration is reached, Low-Latency also at the frozen part duration, segment starts on arbitrary ticks), cross-track skew; " +
+			"a video track with a 1 MHz / 10 MHz (MPEG-TS also 1 GHz) clock in one history with video in five, three in four of those with the rounding aim (random-access units, on Low-Latency also plain units after a frozen picture, placed so that segment / part durations fall within 7 us below, at or above a whole number of seconds or of tenths of a second; counted under gen:fine-clock:*); " +
+			"audio renditions with colliding names in one multi-audio fMP4 / Low-Latency configuration in three (the same user-given Name on two or all audio tracks; a user-given Name equal to the fallback name audio<n> of another track without one); distinct by SHA-256 of the history; " +
 			"non-trivial = at least 2 segments published and at least 3 rotations; " +
 			"C18 and C04 only: in addition evaluations/5 single-stream MPEG-TS / fMP4 histories in which each storage NewFile call fails with probability 1/6 (retention oracle of C18 and playlist-history oracle of C04 only, outside the model; counted under storage-fault-histories, not under evaluations); " +
 			"C04 only: in addition evaluations/5 single-stream fMP4 H264 histories with 1-3 windows that open with a lone malformed SPS and continue with IDR units without in-band parameter sets, so that one init-file regeneration fails and that WriteH264 returns an error (playlist-history oracle only, outside the model; counted under init-failure-histories); " +
